@@ -13,6 +13,7 @@ configuration => exit 2; an unreadable covered file is reported (read error /
 missing information) while the other files still are.
 """
 
+import contextlib
 import os
 
 from hypothesis import strategies as st
@@ -104,10 +105,25 @@ def commands(files, has_dep5):
             ["annotate", "--copyright", "V", "--license", "MIT", "--year", "2020", *(["--template", "odd"] if ".reuse/templates/odd.jinja2" in files else []), target],
             ["download", "LicenseRef-verif"],
             ["annotate", "--copyright", "V", "--license", "MIT", "--skip-existing", target],
-            ["annotate", "--copyright", "V", "--license", "()", target], ["annotate", "--copyright", "V", "--license", "(AND 1", target]]
+            ["annotate", "--copyright", "V", "--license", "()", target], ["annotate", "--copyright", "V", "--license", "(AND 1", target],
+            # every identifier the covered files use and LICENSES/ lacks (nobody answers at the address the tool is pointed at: each one fails cleanly)
+            ["download", "--all"]]
     if has_dep5:
         cmds.append(["convert-dep5"])
     return cmds
+
+
+@contextlib.contextmanager
+def nobody_answers():
+    """Point the tool at a local port where nothing listens (connection refused at once, no real network)."""
+    import reuse.download as D
+
+    old = D._SPDX_REPOSITORY_BASE_URL
+    D._SPDX_REPOSITORY_BASE_URL = "http://127.0.0.1:9/text/"
+    try:
+        yield
+    finally:
+        D._SPDX_REPOSITORY_BASE_URL = old
 
 
 def run_all(ctx, case, files, config_paths=(), expect_usage=False, fault_plan=None, what=""):
@@ -127,7 +143,7 @@ def run_all(ctx, case, files, config_paths=(), expect_usage=False, fault_plan=No
         for cmd in commands(files, has_dep5):
             # read faults are injected into the reading commands; a file that annotate is asked to rewrite
             # has to be readable and writable (click checks the latter before anything runs)
-            with faults.injected(plan if cmd[0] in ("lint", "lint-file", "spdx") else {}):
+            with faults.injected(plan if cmd[0] in ("lint", "lint-file", "spdx") else {}), nobody_answers():
                 res = cli.run(["--no-multiprocessing", *cmd] if cmd[0] in ("lint", "lint-file", "spdx") else cmd, root)
             outcomes.append((cmd, res))
             if res.crash is not None:
@@ -228,7 +244,7 @@ def check_toml(ctx, c):
     files = dict(BASE_FILES)
     cfg = "src/REUSE.toml" if c["nested"] else "REUSE.toml"
     files[cfg] = c["data"]
-    out = run_all(ctx, c, files, config_paths=[cfg], expect_usage=c["corrupt"] in ("badutf8", "unclosed", "dup-key"), what=f"generated REUSE.toml ({c['corrupt']})")
+    out = run_all(ctx, c, files, config_paths=[cfg], expect_usage=c["corrupt"] in ("badutf8", "unclosed", "dup-key", "bad-expression"), what=f"generated REUSE.toml ({c['corrupt']})")
     ctx.count(c, nontrivial=any(r.code != 0 for _c, r in out), labels=["gen:toml", f"corrupt:{c['corrupt']}"] + sorted({f"exit:{r.code}" for _c, r in out}),
               sample={"document": c["data"].decode("utf-8", "replace"), "corrupt": c["corrupt"]})
 
@@ -288,6 +304,13 @@ ODD_CONTENT = [
     b"# SPDX-License-Identifier: ()\nprint(1)\n", b"# SPDX-FileCopyrightText: 2020 X\n# SPDX-License-Identifier: (AND 1\n\nprint(1)\n",
     b"# SPDX-FileCopyrightText: 2020 Jos\xe9 Garc\xeda\n# SPDX-License-Identifier: MIT\nprint(1)\n", b"# SPDX-FileContributor: Andr\xe9\n# SPDX-License-Identifier: MIT\n",
     b"SPDX-License-Identifier: a:b\n", b"SPDX-FileCopyrightText:\nSPDX-License-Identifier:\n", b"SPDX-License-Identifier: +\n",
+    # well-formed but nested hundreds of levels deep (rendering, comparing or pickling such an expression exhausts the stack)
+    b"# SPDX-FileCopyrightText: 2020 D\n# SPDX-License-Identifier: MIT" + b" OR (MIT" * 400 + b")" * 400 + b"\n",
+    b"# SPDX-FileCopyrightText: 2020 D\n# SPDX-License-Identifier: MIT" + b" OR (ISC AND (MIT" * 300 + b"))" * 300 + b"\n",
+    b"# SPDX-License-Identifier: " + b"(" * 1500 + b"MIT" + b")" * 1500 + b"\n# SPDX-SnippetBegin\n",
+    # identifiers that no file name or URL can carry
+    "# SPDX-FileCopyrightText: 2020 U\n# SPDX-License-Identifier: Ünï-1.0\n".encode(), b"# SPDX-FileCopyrightText: 2020 L\n# SPDX-License-Identifier: " + b"a" * 300 + b"\n",
+    b"# SPDX-FileCopyrightText: 2020 S\n# SPDX-License-Identifier: LicenseRef-" + b"b" * 300 + b"\n",
 ]
 
 
@@ -384,7 +407,15 @@ def run(ctx):
             if (i * 3 + j) % ctx.nshards == ctx.shard:
                 check_content(ctx, {"gen": "content", "where": where, "data": data, "fault": None, "fault_on": "c.txt"})
     # a well-formed dep5 whose License field is not an SPDX expression is a broken configuration file
-    bad = list(V.INVALID_EXPRESSIONS) + ["()", "(AND 1", "GPL-2.0+*with exception", ""]
+    deep = "MIT" + " OR (MIT" * 400 + ")" * 400  # well-formed, but it cannot be rendered or pickled (stack)
+    bad = list(V.INVALID_EXPRESSIONS) + ["()", "(AND 1", "GPL-2.0+*with exception", "", deep]
+    # the same expressions in a REUSE.toml (root and nested)
+    for i, expr in enumerate([deep, "MIT" + " OR (ISC AND (MIT" * 300 + "))" * 300, "()", "MIT AND"]):
+        for j, nested in enumerate((False, True)):
+            if (i * 2 + j) % ctx.nshards == ctx.shard:
+                doc = f'version = 1\n\n[[annotations]]\npath = "**"\nSPDX-FileCopyrightText = "2020 A"\nSPDX-License-Identifier = "{expr}"\n'
+                # (an expression that merely is too deep need not be refused: it must not end in a traceback)
+                check_toml(ctx, {"gen": "toml", "data": doc.encode(), "corrupt": "bad-expression" if len(expr) < 20 else "deep-expression", "nested": nested})
     for i, expr in enumerate(bad):
         for j, second in enumerate((False, True)):
             if (i * 2 + j) % ctx.nshards == ctx.shard:
